@@ -100,7 +100,8 @@ func Corpus() *Program {
 		fld("EvStr", 1, KString), fld("EvNum", 2, KInt64), fld("EvLeaf", 3, KMessage, ref("Leaf")),
 		fld("EvTags", 4, KString, list()))
 	msg("EmbP", nil,
-		fld("EpStr", 1, KString), fld("EpNum", 2, KInt32), fld("EpFlag", 3, KBool))
+		fld("EpStr", 1, KString), fld("EpNum", 2, KInt32), fld("EpFlag", 3, KBool),
+		fld("EpHidden", 4, KString)) // excluded: a field of a nullable embedded message the schema does not describe
 	msg("Embedding", nil,
 		fld("Own", 1, KString),
 		fld("EmbV", 2, KMessage, ref("EmbV"), embed(), nonNull()),
@@ -111,6 +112,7 @@ func Corpus() *Program {
 		fld("EvA", 2, KString, oneof("EvChoice")), fld("EvB", 3, KInt32, oneof("EvChoice")))
 	msg("EmbedOneof", nil,
 		fld("Top", 1, KString),
+		fld("EvAMid", 3, KString), // sorts between the promoted branches EvA and EvB when sort is on
 		fld("EmbO", 2, KMessage, ref("EmbO"), embed(), nonNull()))
 
 	msg("EmbD", nil,
@@ -154,7 +156,7 @@ func Corpus() *Program {
 		DurationCustomType:          DurationCastName,
 		TimeType:                    SimTimeType,
 		DurationType:                SimDurationType,
-		ExcludeFields:               []string{"Naming.Secret", "Naming.SecretList", "NamedLeaf.Hidden", "Naming.Other.Skip"},
+		ExcludeFields:               []string{"Naming.Secret", "Naming.SecretList", "NamedLeaf.Hidden", "Naming.Other.Skip", "EmbP.EpHidden"},
 		ComputedFields:              []string{"Scalars.FString", "Sink.Count", "Leaf.Num", "Sink.Spec.Name"},
 		RequiredFields:              []string{"Sink.Name", "Scalars.FInt32"},
 		SensitiveFields:             []string{"Sink.Data", "Leaf.Str"},
